@@ -9,6 +9,7 @@ mod compile;
 mod num;
 mod json;
 mod orders;
+mod seq;
 
 fn main() {
     let args: Vec<String> = std::env::args().collect();
@@ -23,6 +24,7 @@ fn main() {
         "num" => num::main(&rest),
         "json" => json::main(&rest),
         "orders" => orders::main(&rest),
+        "seq" => seq::main(&rest),
         _ => {
             eprintln!("usage: th <engine> <args..>");
             2
